@@ -188,11 +188,18 @@ def check(s):
     coni = "AbstractOffPolicyStepState.initial"
     pi = one(s.paths(b5, "AbstractOffPolicyStepState", "initial"), coni)
     r = pi.ret
-    okc = isinstance(r, tuple) and r[0] == "call" and r[1] == ("param", "cls") and len(r[2]) == 4
+    # cls(env_state, policy_state, callback_state, buffer), positionally or by field name
+    order = [f_.name for f_ in s.prog.dataclass_fields(s.prog.cls("AbstractOffPolicyStepState"))]
+    argmap = None
+    if isinstance(r, tuple) and r[0] == "call" and r[1] == ("param", "cls") and not any(k_ is None for k_, _ in r[3]):
+        argmap = dict(zip(order, r[2]))
+        for k_, v_ in r[3]:
+            argmap = None if (argmap is None or k_ in argmap or k_ not in order) else dict(argmap, **{k_: v_})
+    okc = argmap is not None and set(argmap) == set(order) and "buffer" in argmap
     s.ob("C05.5", coni, okc, "initial returns cls(env_state, policy_state, callback_state, buffer)", s.loc("AbstractOffPolicyStepState", "initial"),
          key="initial-shape", detail=show(r, maxlen=200))
     if okc:
-        bufn = r[2][3]
+        bufn = argmap["buffer"]
         fb = fields(bufn)
         s.ob("C05.5", coni, isinstance(bufn, tuple) and bufn[0] == "record" and bufn[1].endswith("ReplayBuffer")
              and fb.get("size", fb.get("arg:size")) == ("param", "size"), "the buffer is a ReplayBuffer of the requested size",
